@@ -209,6 +209,8 @@ def run(tier):
     rep.assumptions = ["numpy backends only (no vmap-style backend: nested function definitions do not occur)", "only graph=True is requested; nothing is executed"]
     specs = corpus.quick_specs() if tier == "quick" else corpus.thorough_specs()
     cases = corpus.generate(rep, specs)
+    if tier == "thorough":
+        cases = corpus.cap(cases, 30000)
     rep.exhaustive = True
     if tier == "quick":
         keep = {"elementwise": 16, "update_at": 25, "get_at": 8, "id": 8, "preserve": 4, "argfind": 4, "reduce": 2}
